@@ -27,19 +27,21 @@ P = {
          "theorem (printer = rendering of a grammatical SPath with equal semantics) + metamorphic oracle", "rdflib's SPARQL engine trusted to implement SPARQL; the *_sparql evaluator twins are compared on the code, not proved; unambiguity of the SPARQL path grammar is assumed"),
  "C08": ("proof", "§6 C08", "caller_unchanged: invariant over the pipeline op sequence for every heap, config and failure point; exhaustive config enumeration with fault injection on the real code",
          "theorem (invariant by induction over operations) + exhaustive fault enumeration", "Lean kernel; heap model of Validator.run / RuleExpandRunner.run"),
- "C09": ("proof", "§6 C09", "perm_invariant / picks_irrelevant at model level; hash seeds, insertion orders, relabellings and prefixes sampled on the real code in separate processes",
-         "theorem + sampled process-level determinism", "CPython hash randomisation cannot be exhibited by the model; it is sampled"),
+ "C09": ("proof", "§6 C09 / §10", "focus_order_irrelevant (verdict and result set of a shape evaluation are a function of the set of focus nodes: every Core / SPARQL component, nested evaluations included), order-invariance of value nodes, focus nodes and of the graph-reading Core components, picks_irrelevant; hash seeds, insertion orders, relabellings and prefixes sampled on the real code in separate processes",
+         "theorem + sampled process-level determinism", "CPython hash randomisation cannot be exhibited by the model; it is sampled; invariance of the complete run under triple permutation / blank-node relabelling is _partial"),
  "C10": ("proof", "§6 C10", "history_independent via the Clean invariant of the global-state machine; long-lived vs one-shot worker on the real code",
          "theorem (invariant over call histories) + differential processes", "allocator address reuse is modelled as nondeterministic id equality"),
  "C11": ("proof", "§6 C11", "results_option_independent, verdict_with_waivers, relax_chain for every input; the four option combinations compared on the real code",
          "theorem (relation between runs) + metamorphic oracle", "Lean kernel; model of the waiver logic of Shape.validate"),
- "C12": ("proof", "§6 C12", "nonconforming_has_unwaived_result and the verdict formula with abort_on_first for every input; abort vs complete run compared on the real code (verdict, subset)",
-         "theorem + metamorphic oracle", "verdict equality abort/complete is checked on the code, its model-level proof is partial (DESIGN §6 C12)"),
+ "C12": ("proof", "§6 C12 / §10", "abort_same_verdict: whenever the complete run returns a verdict the run with abort_on_first returns the same one (refinement through every nested evaluation, component and loop; every waiver combination and selection), nonconforming_has_unwaived_result; abort vs complete run compared on the real code (verdict, subset)",
+         "theorem (refinement between two runs) + metamorphic oracle", "the subset relation between the two result lists is checked on the code, not proved"),
  "C13": ("proof", "§6 C13 / §10", "nested_checks_unfiltered (every nested evaluation is the same computation with and without focus_nodes, any depth), focus list under F = focus list on any target-narrowed shapes graph (as sets; skipped iff skipped), both options apply each selected shape to each node, use_shapes evaluates exactly the selected shapes; selection options vs target-rewritten shapes graph on the real code incl. rules",
          "theorem (relation between runs) + metamorphic oracle + differential correspondence", "order-independence of the constraint loop in the focus list and equality of the two shape harvests are compared on the code, not proved (focus_narrows_targets_partial)"),
- "C14": ("proof", "§6 C14", "union_equiv / preexpanded_equiv with the closure as an opaque parameter; metamorphic oracle on the real code", "theorem over an opaque closure + metamorphic oracle", "owlrl is not verified"),
+ "C14": ("proof", "§6 C14 / §10", "validated_graph_is_preexpanded (the object handed to the validation loop holds rules(infer(inoculate(data))) for every heap, configuration and closure function), union view theorems, inoculate theorems, with the closure as an opaque parameter; metamorphic oracle on the real code",
+         "theorem over an opaque closure + metamorphic oracle", "owlrl is not verified"),
  "C15": ("proof", "§6 C15", "rules model vs reference procedure", "theorem + differential correspondence", "CONSTRUCT engine is a parameter"),
- "C16": ("proof", "§6 C16", "exit-code table theorems over the regenerated except chain; malformed-parameter kind table enumerated on the real code", "theorem over regenerated tables + exhaustive kind enumeration", ""),
+ "C16": ("proof", "§6 C16 / §10", "exit-code table theorems over the regenerated except chain and exception hierarchy; component_raw_classes_partial (the raw exception classes a Core / SPARQL component of the model can let through, enumerated); malformed-parameter kind table enumerated on the real code (API and command line)",
+         "theorem over regenerated tables + exhaustive kind enumeration", "the API clause is proved at component level only (paths, targets, advanced mode: enumeration on the code)"),
  "C17": ("proof", "§6 C17", "advanced targets / functions / expressions glue with opaque engine", "theorem over an opaque engine + differential correspondence", ""),
  "C18": ("other", "§6 C18", "proof of pySHACL's glue (same report object serialised; exit status); round-trip of rdflib's serialisers is a hypothesis validated by sampling", "theorem for the glue + sampled round-trip", "rdflib parsers/serialisers not verified"),
  "C19": ("proof", "§6 C19", "total model = the code's own termination argument; at_limit_loud; back-out silent on fresh shapes; depth x limit sweep under a wall-clock limit on the real code",
